@@ -151,7 +151,9 @@ def strategy(tier):
 # also inside other quantifiers
 FORMATS = ["^[0-9a-f]{40}$", "^(?:[0-9a-f]{40} ){1,3}$", "^v[0-9]+(?:-g[0-9a-f]{40})?$", "(?:[A-Z]{33}){2}", "(?:a{40,}){2}",
            "(?:\\d{64})*", "(?:x{33,35}y)+", "^(?:[a-z]{1,63}\\.){1,3}[a-z]{2,63}$", "[01]{128}", "(?:[0-9a-f]{2}:){5}[0-9a-f]{2}",
-           "^[A-Za-z0-9+/]{44}={0,2}$", "(?:(?:ab){33}c){0,2}", "\\w{0,100}", "(?:-?\\d{1,40}){3}"]
+           "^[A-Za-z0-9+/]{44}={0,2}$", "(?:(?:ab){33}c){0,2}", "\\w{0,100}", "(?:-?\\d{1,40}){3}",
+           # flags scoped to a group (they end with the group)
+           "(?s:<.>)=.", "(?i:ab)c.", "(?s:.)(?-s:.).", "x(?s:.+)y.{3}", "(?x: a b )c ."]
 
 
 def exhaustive(tier):
